@@ -25,6 +25,6 @@ def run(run, tier, seed, args):
     run.coverage.update(proof_cov)
     run.assumptions += [
         "abstract contracts for commit / rollback / close / _transaction_is_active / _transaction_is_closed / _rollback_can_be_called of the concrete transaction classes: they may change the transaction's own state and may raise; they do not touch the context-manager links",
-        "under proof: TransactionalContext.__enter__, __exit__ (26 paths), _trans_ctx_check; RootTransaction.__init__/_close_impl/_do_commit/_do_close/_do_rollback/_deactivate_from_connection and Transaction.close/rollback/commit on a root and on a savepoint handle (the `assert not self.is_active` of their finally blocks is discharged on every exit); NestedTransaction.__init__ (pushing keeps the chain well formed; a failing SAVEPOINT leaves the stack as it was)/_deactivate_from_connection/_cancel (recursive, over a ghost chain of savepoint handles)/_close_impl/_do_commit. Connection.begin/begin_nested/commit/rollback and the savepoint SQL are in the bounded complement",
+        "under proof: TransactionalContext.__enter__, __exit__ (26 paths), _trans_ctx_check; RootTransaction.__init__/_close_impl/_do_commit/_do_close/_do_rollback/_deactivate_from_connection and Transaction.close/rollback/commit on a root and on a savepoint handle (the `assert not self.is_active` of their finally blocks is discharged on every exit); NestedTransaction.__init__ (pushing keeps the chain well formed; a failing SAVEPOINT leaves the stack as it was)/_deactivate_from_connection/_cancel (recursive, over a ghost chain of savepoint handles)/_close_impl/_do_commit. Connection.begin (refused while a transaction object exists), commit, rollback, in_transaction are under proof; begin_nested/_autobegin and the savepoint SQL are in the bounded complement",
         "NestedTransaction._cancel: the ghost parameter `chain` is the list of handles linked by _previous_nested (acyclic, one connection): well-formedness is established by __init__ (proved: head linked to the old head, same connection, not a member of the old chain) and assumed at the call from RootTransaction; the recursion is checked against its own contract (partial correctness)",
     ]
